@@ -713,8 +713,8 @@ def _parse_output_options(output_opts, level, phase_assemblage):
 def _parse_phase(ϕ: str | _core.MineralPhase | int) -> _core.MineralPhase:
     if isinstance(ϕ, str):
         try:
-            return getattr(_core.MineralPhase, ϕ)
-        except AttributeError:
+            return _core.MineralPhase[ϕ]
+        except KeyError:
             raise _err.ConfigError(f"invalid phase in phase assemblage: {ϕ}") from None
     elif isinstance(ϕ, _core.MineralPhase):
         return ϕ
